@@ -234,9 +234,13 @@ func replayFile(path string, verbose bool) int {
 		die2("%v", err)
 	}
 	d := lookup(rp.Property)
-	bin := build(d.Engine)
+	eng := d.Engine
+	if rp.Engine != "" {
+		eng = rp.Engine
+	}
+	bin := build(eng)
 	abs, _ := filepath.Abs(path)
-	j := simkit.Job{Property: rp.Property, Engine: d.Engine, Mode: "replay", Tier: "quick", Seed: rp.Seed, Replay: abs,
+	j := simkit.Job{Property: rp.Property, Engine: eng, Mode: "replay", Tier: "quick", Seed: rp.Seed, Replay: abs,
 		ReplayDir: filepath.Join(verifRoot, "replays"), BudgetMS: 120000, Args: d.Args}
 	res, err := runWorker(bin, j, 2, 5*time.Minute)
 	if err != nil {
@@ -335,6 +339,20 @@ func runCheck(id, tier string) int {
 	if workers <= 0 {
 		workers = 16
 	}
+	// some properties have facets in a second engine: a few of the workers run that one
+	engines := make([]string, workers)
+	bins := make([]string, workers)
+	for w := range engines {
+		engines[w], bins[w] = d.Engine, bin
+	}
+	next := workers
+	for _, al := range d.Also {
+		ab := build(al.Engine)
+		for i := 0; i < al.Workers && next > 1; i++ {
+			next--
+			engines[next], bins[next] = al.Engine, ab
+		}
+	}
 	replayDir := filepath.Join(verifRoot, "replays")
 	_ = os.MkdirAll(replayDir, 0o755)
 	results := make([]*simkit.Result, workers)
@@ -344,13 +362,13 @@ func runCheck(id, tier string) int {
 		wg.Add(1)
 		go func(w int) {
 			defer wg.Done()
-			j := simkit.Job{Property: id, Engine: d.Engine, Mode: "search", Tier: tier, Seed: seed, Worker: w, Workers: workers,
+			j := simkit.Job{Property: id, Engine: engines[w], Mode: "search", Tier: tier, Seed: seed, Worker: w, Workers: workers,
 				BudgetMS: budget, ReplayDir: replayDir, Args: d.Args}
 			gmp := d.GOMAXPROCS
 			if gmp <= 0 {
 				gmp = 2
 			}
-			results[w], errs[w] = runWorker(bin, j, gmp, 4*time.Minute+time.Duration(budget)*time.Millisecond)
+			results[w], errs[w] = runWorker(bins[w], j, gmp, 4*time.Minute+time.Duration(budget)*time.Millisecond)
 		}(w)
 	}
 	wg.Wait()
@@ -365,7 +383,9 @@ func runCheck(id, tier string) int {
 	distinct, states, trans := simkit.Set64{}, simkit.Set64{}, simkit.Set64{}
 	exhaustive := true
 	var viols []simkit.Violation
+	perEngine := map[string]int64{}
 	for _, r := range results {
+		perEngine[r.Engine] += r.Runs
 		tot.Runs += r.Runs
 		tot.Steps += r.Steps
 		tot.SimNanos += r.SimNanos
@@ -415,9 +435,14 @@ func runCheck(id, tier string) int {
 		seen[key] = true
 		confirmed := false
 		if v.Replay != "" {
-			j := simkit.Job{Property: id, Engine: d.Engine, Mode: "replay", Tier: tier, Seed: v.Seed, Replay: v.Replay,
+			var rp simkit.Replay
+			rbin, reng := bin, d.Engine
+			if simkit.LoadJSON(v.Replay, &rp) == nil && rp.Engine != "" && rp.Engine != d.Engine {
+				rbin, reng = build(rp.Engine), rp.Engine
+			}
+			j := simkit.Job{Property: id, Engine: reng, Mode: "replay", Tier: tier, Seed: v.Seed, Replay: v.Replay,
 				ReplayDir: replayDir, BudgetMS: 120000, Args: d.Args}
-			if res, err := runWorker(bin, j, 2, 5*time.Minute); err == nil && res.Reproduced {
+			if res, err := runWorker(rbin, j, 2, 5*time.Minute); err == nil && res.Reproduced {
 				confirmed = true
 			}
 		}
@@ -447,6 +472,9 @@ func runCheck(id, tier string) int {
 			return 2
 		}
 	}
+	tot.Probes["_engines"] = 0
+	delete(tot.Probes, "_engines")
+	evidenceEngines = perEngine
 	writeEvidence(d, tier, seed, tot, len(distinct), len(states), len(trans), exhaustive && d.Exhaustible, reported+knownHit, time.Since(start).Seconds(), wall, st, workers, budget)
 	fmt.Printf("check %s: %d runs, %d steps, %d distinct non-trivial cases, %d violations reported, %d known findings, %.1fs\n",
 		id, tot.Runs, tot.Steps, len(distinct), reported, knownHit, time.Since(start).Seconds())
@@ -459,21 +487,33 @@ func runCheck(id, tier string) int {
 	return 0
 }
 
+var evidenceEngines map[string]int64
+
+// lookupEngine returns some check definition that uses engine e as its main one.
+func lookupEngine(e string) *checkDef {
+	for i := range checks {
+		if checks[i].Engine == e {
+			return &checks[i]
+		}
+	}
+	return &checkDef{}
+}
+
 func writeEvidence(d *checkDef, tier string, seed uint64, tot *simkit.Result, distinct, states, trans int, exhaustive bool,
 	violations int, wallAll, wallSearch float64, st *selftestReport, workers int, budget int64) {
 	cov := map[string]any{
-		"evaluations":         tot.Runs,
-		"distinct_nontrivial": distinct,
-		"rule":                d.Rule,
-		"samples":             tot.Samples,
-		"exhaustive":          exhaustive,
-		"macro_steps":         tot.Steps,
-		"simulated_seconds":   float64(tot.SimNanos) / 1e9,
-		"runs_per_hour":       int64(float64(tot.Runs) / (wallSearch + 0.001) * 3600),
-		"seeds":               fmt.Sprintf("base seed %d, %d workers, one derived seed per run (mix(seed, worker, run))", seed, workers),
-		"faults_fired":        tot.Faults,
-		"probes":              tot.Probes,
-		"real_vs_stub":        d.RealStub,
+		"evaluations":          tot.Runs,
+		"distinct_nontrivial":  distinct,
+		"rule":                 d.Rule,
+		"samples":              tot.Samples,
+		"exhaustive":           exhaustive,
+		"macro_steps":          tot.Steps,
+		"simulated_seconds":    float64(tot.SimNanos) / 1e9,
+		"runs_per_hour":        int64(float64(tot.Runs) / (wallSearch + 0.001) * 3600),
+		"seeds":                fmt.Sprintf("base seed %d, %d workers, one derived seed per run (mix(seed, worker, run))", seed, workers),
+		"faults_fired":         tot.Faults,
+		"probes":               tot.Probes,
+		"real_vs_stub":         d.RealStub,
 		"budget_ms_per_worker": budget,
 	}
 	if states > 0 {
@@ -483,6 +523,14 @@ func writeEvidence(d *checkDef, tier string, seed uint64, tot *simkit.Result, di
 	}
 	if st != nil {
 		cov["determinism_selfcheck"] = st
+	}
+	if len(evidenceEngines) > 1 {
+		cov["runs_per_engine"] = evidenceEngines
+		also := map[string]any{}
+		for _, al := range d.Also {
+			also[al.Engine] = map[string]any{"why": al.Why, "real_vs_stub": lookupEngine(al.Engine).RealStub}
+		}
+		cov["secondary_engines"] = also
 	}
 	if len(tot.Other) > 0 {
 		cov["other_property_violations_seen"] = tot.Other
